@@ -40,7 +40,7 @@ REAL_STUB = {
     "real": ["KlongInterpreter (parser, eval, _eval_fn, _resolve_fn, KlongContext push/pop, merge_projections, KGCond)"],
     "stub": ["failure of a call: an identity tick callable that raises at its k-th invocation"],
 }
-EXPECTED_PROBES = ["probe_fault_depth_1", "probe_fault_depth_2", "probe_fault_depth_3", "probe_fault_after_global_assignment", "probe_chain_of_failures",
+EXPECTED_PROBES = ["probe_subst_infix", "probe_fault_depth_1", "probe_fault_depth_2", "probe_fault_depth_3", "probe_fault_after_global_assignment", "probe_chain_of_failures",
                    "probe_natural_fault_undefined_fn", "probe_cond_false_branch", "probe_cond_true_branch", "probe_projection_call", "probe_recursion",
                    "probe_subst_projection_patterns", "probe_subst_each", "probe_subst_over", "probe_subst_at",
                    "probe_nested_recursions", "probe_nilad_calls", "probe_subst_over_matrix", "probe_subst_after_global_reassigned",
@@ -675,6 +675,17 @@ def scenario_subst(ch, cfg):
         # over: F/[a b] == F(a;b)
         bump("probe_subst_over")
         check("over", [f"F/[{args[0]} {args[1]}]"])
+    if n == 2 and all(a in ("0", "1", "2", "7") for a in args):
+        # the infix form of a dyad, a F b - on its own, and where a conditional takes its condition / its branches from
+        bump("probe_subst_infix")
+        check("infix", [f"{args[0]} F {args[1]}"])
+        check("infix-as-branch", [f":[1;{args[0]} F {args[1]};99]"])
+        if expected[0] == "ok":
+            kI, tI = fresh()
+            want_c = _run(kI, f':[F({args[0]};{args[1]});"then";"else"]')
+            check("infix-as-condition", [f':[{args[0]} F {args[1]};"then";"else"]'], want=want_c)
+            check("infix-as-condition-inside-a-function", ['W::{:[x F y;"then";"else"]}', f"W({args[0]};{args[1]})"], want=want_c)
+            check("infix-as-later-condition", [f':[0;"first":|{args[0]} F {args[1]};"then";"else"]'], want=want_c)
     if n == 2:
         # over with the rows of a rectangular matrix as operands: F/[[1 2] [3 4]] == the body with x=[1 2], y=[3 4]
         bump("probe_subst_over_matrix")
